@@ -48,6 +48,11 @@ def standins(tier, seed):
     for p, q, r in sigs:
         d = p + q + r
         cfgs.append(dict(p=p, q=q, r=r, random=n if d <= 4 else (max(4, n // 2) if d == 5 else max(2, n // 6)), pad=True, det_dmax=4))
+    # degenerate 6-D / 7-D algebras: the iterative scheme needs as many steps as the full dimension demands; operands of four
+    # commuting-free blades whose minimal polynomial has high degree (keys: scalar, a vector, a bivector, a blade with null generators)
+    cfgs.append(dict(p=4, q=0, r=2, random=1, pad=False, det_dmax=4, operands=[(0, 1 << 2, (1 << 3) | (1 << 4), (1 << 0) | (1 << 1)), (0, 1 << 2, (1 << 3) | (1 << 4), (1 << 5) | (1 << 0))]))
+    if tier != 'quick':
+        cfgs.append(dict(p=6, q=0, r=1, random=1, pad=False, det_dmax=4, operands=[(0, 1 << 1, (1 << 2) | (1 << 3), (1 << 4) | (1 << 5), (1 << 0) | (1 << 6))]))
     chunks = [cfgs[i::10] for i in range(10)]
     jobs = [{'name': f'inverse#{i}', 'bound': f'{n} seeded operands per signature (fewer for d>=5) incl. permuted and zero-padded; x*inv(x), inv(x)*x, a/b, number/x; determinant oracle d<=4',
              'job': {'kind': 'inverse', 'module': 'standins.jobs5', 'configs': ch, 'seed': seed * 10 + i}} for i, ch in enumerate(chunks) if ch]
